@@ -17,6 +17,7 @@ REQUIRED_COUNTERS = ["c17_loader_passes", "c17_partial_last_batch", "c17_shuffle
 MIN_NONTRIVIAL = {"quick": 700, "thorough": 2000}
 WORKERS = {"quick": 14, "thorough": 16}
 BUDGET_S = {"quick": 400, "thorough": 3000}
+THOROUGH_ROUNDS = 8
 
 
 def cases(tier, seed):
